@@ -666,7 +666,7 @@ def run_loopback(ctx, n_rounds):
     for r in range(n_rounds):
         for kind, values, mode in cases:
             try:
-                loopback_case(kind, values, mode)
+                lb.reproduced(loopback_case, kind, values, mode)
                 ctx.case(('loopback', kind, values, mode, r), True, labels=['loopback-raw-peer', kind, mode],
                          sample={'loopback': kind, 'values': values, 'mode': mode})
             except lb.Inconclusive:
@@ -690,7 +690,7 @@ def run_loopback(ctx, n_rounds):
             ctx.fail(v.key, v.what, v.case)
         for n_late in (0, 1, 3):
             try:
-                loopback_release_in_flight(n_late)
+                lb.reproduced(loopback_release_in_flight, n_late)
                 ctx.case(('loopback', 'release-in-flight', n_late, r), True, labels=['loopback-raw-peer', 'release-in-flight'],
                          sample={'loopback': 'release-in-flight', 'late_responses': n_late})
             except lb.Inconclusive:
